@@ -53,12 +53,22 @@ int main(void) {
   g_rec(G_XY, GT_I32, 24); g_u32((uint32_t)x[0]); g_u32((uint32_t)y[0]); g_u32((uint32_t)(x[0] + 2 * pc)); g_u32((uint32_t)y[0]); g_u32((uint32_t)x[0]); g_u32((uint32_t)(y[0] + 3 * pr)); g_none(G_ENDEL);
   g_none(G_SREF); g_str1(G_SNAME, 'D'); g_rec(G_XY, GT_I32, 8); g_u32((uint32_t)x[1]); g_u32((uint32_t)y[1]); g_none(G_ENDEL);
   g_cell_end(); g_cell_begin('D');
+#elif SEQ == 7 || SEQ == 8     /* elements of DIFFERENT kinds in sequence: SREF (STRANS, MAG, ANGLE) then a plain TEXT (7); TEXT (PRESENTATION, STRANS, MAG, ANGLE) then a plain SREF (8) */
+  uint16_t pres = nd_u16();
+#if SEQ == 7
+  g_none(G_SREF); g_str1(G_SNAME, 'D'); g_bits(G_STRANS, 0x8000); g_real(G_MAG, R8_HALF); g_real(G_ANGLE, R8_90); g_rec(G_XY, GT_I32, 8); g_u32((uint32_t)x[0]); g_u32((uint32_t)y[0]); g_none(G_ENDEL);
+  g_none(G_TEXT); g_i16(G_LAYER, layer2); g_i16(G_TEXTTYPE, dtype2); g_rec(G_XY, GT_I32, 8); g_u32((uint32_t)x[1]); g_u32((uint32_t)y[1]); g_str1(G_STRING, 't'); g_none(G_ENDEL);
+#else
+  g_none(G_TEXT); g_i16(G_LAYER, layer2); g_i16(G_TEXTTYPE, dtype2); g_bits(G_PRESENTATION, pres); g_bits(G_STRANS, 0x8000); g_real(G_MAG, R8_TWO); g_real(G_ANGLE, R8_90); g_rec(G_XY, GT_I32, 8); g_u32((uint32_t)x[1]); g_u32((uint32_t)y[1]); g_str1(G_STRING, 't'); g_none(G_ENDEL);
+  g_none(G_SREF); g_str1(G_SNAME, 'D'); g_rec(G_XY, GT_I32, 8); g_u32((uint32_t)x[0]); g_u32((uint32_t)y[0]); g_none(G_ENDEL);
+#endif
+  g_cell_end(); g_cell_begin('D');
 #endif
   g_cell_end(); g_file_end();
   uint8_t fname[2] = {'f', 0}; uint32_t err = 0; Lib lib = {0};
   READ_GDS(&lib, fname, 0.0, 0.0, (void*)0, &err);
   CHECK(err == 0 && vf_open_count == 0, "loads, handle released");
-  CHECK(lib.f3.f1 == ((SEQ == 1 || SEQ == 4 || SEQ == 6) ? 2 : 1), "cells");
+  CHECK(lib.f3.f1 == ((SEQ == 1 || SEQ == 4 || SEQ == 6 || SEQ == 7 || SEQ == 8) ? 2 : 1), "cells");
   Cell* c = lib_cell(&lib, 0);
 #if SEQ == 0 || SEQ == 4
   Cell* c2 = SEQ == 4 ? lib_cell(&lib, 1) : c;
@@ -90,6 +100,17 @@ int main(void) {
   CHECK(c->f2.f1 == 2, "two references"); Ref* r0 = ((Ref**)c->f2.f2)[0]; Ref* r1 = ((Ref**)c->f2.f2)[1]; Cell* t = lib_cell(&lib, 1);
   CHECK(r0->f6.f0 == 1 && *(Cell**)&r0->f1 == t, "first reference: a rectangular array");
   CHECK(r1->f0 == 0 && *(Cell**)&r1->f1 == t && VXD(r1->f2) == (double)x[1] && VYD(r1->f2) == (double)y[1] && r1->f6.f0 == 0, "second reference: resolved, its own origin, no repetition");
+#elif SEQ == 7 || SEQ == 8
+  CHECK(c->f2.f1 == 1 && c->f5.f1 == 1, "one reference, one label"); Ref* r = ((Ref**)c->f2.f2)[0]; Label* l = ((Label**)c->f5.f2)[0]; Cell* t = lib_cell(&lib, 1);
+  CHECK(r->f0 == 0 && *(Cell**)&r->f1 == t && VXD(r->f2) == (double)x[0] && VYD(r->f2) == (double)y[0], "the reference: resolved, its own origin");
+  CHECK(l->f0 == TAG(layer2, dtype2) && l->f1 && l->f1[0] == 't' && VXD(l->f2) == (double)x[1] && VYD(l->f2) == (double)y[1], "the label: its own tag, text and position");
+#if SEQ == 7
+  CHECK(r->f4 == 0.5 && (r->f5 & 1) == 1 && r->f3 == 3.14159265358979323846 / 180.0 * 90.0, "the reference keeps what it carried");
+  CHECK(l->f5 == 1.0 && l->f4 == 0.0 && (l->f6 & 1) == 0 && l->f3 == 0, "the label that follows has the defaults");
+#else
+  CHECK(l->f5 == 2.0 && (l->f6 & 1) == 1 && l->f3 == (uint32_t)(pres & 0xf) && l->f4 == 3.14159265358979323846 / 180.0 * 90.0, "the label keeps what it carried");
+  CHECK(r->f4 == 1.0 && r->f3 == 0.0 && (r->f5 & 1) == 0 && r->f6.f0 == 0, "the reference that follows has the defaults");
+#endif
 #endif
   WITNESS_POINT();
   return 0;
